@@ -1,4 +1,6 @@
-import NixModel.Lemmas.C16Read
+import NixModel.Lemmas.C16Create
+import NixModel.Pure.FrameShape
+import NixModel.Generated.FrameShape
 /-!
 # C16 — a data frame is a faithful table of named, typed columns
 
@@ -158,27 +160,23 @@ theorem C16_shape_consistent (f0 : Frame) (hist : List Op) (hc : Created f0) : D
       · simp [List.map_map, Function.comp_def]
     · simp [List.map_map, Function.comp_def]
 
-/-- **refused unchanged**: after any history, a refused write leaves the table exactly as it was.  The one
-    exception the code has: `write_column` writes row by row, so a cell that the column's type refuses (not one of
-    the refusal causes the property lists) stops it after the earlier rows were written. -/
+/-- **refused unchanged**: after any history, a refused write — whatever the cause: wrong length, unknown column,
+    out-of-range row or column, duplicate column name, unordered index list, a cell the column's type refuses —
+    leaves the table exactly as it was.  (Until `fix:` 2f1693f `write_column` was an exception: it wrote row by row
+    and a refused cell left the earlier rows written.) -/
 theorem C16_refused_unchanged (f0 : Frame) (hist : List Op) (op : Op) (e : Err)
     (h : (step (run f0 hist) op).2 = some e) :
-    (step (run f0 hist) op).1 = run f0 hist ∨
-    ∃ col index name, op = .writeColumn col index name ∧
-      ∃ ct ∈ (run f0 hist).cols, ∃ v ∈ col, conv ct.2 v = .error e := by
+    (step (run f0 hist) op).1 = run f0 hist := by
   generalize run f0 hist = f at h ⊢
   cases op with
-  | appendRows rows => exact Or.inl (appendRows_refused h)
-  | appendColumn col name dt => exact Or.inl (appendColumn_refused h)
-  | writeRows rows idx => exact Or.inl (writeRows_refused h)
-  | writeRowFlat row idx => exact Or.inl (writeRowFlat_refused h)
-  | writeColumn col index name =>
-    rcases writeColumn_refused h with h | h
-    · exact Or.inl h
-    · exact Or.inr ⟨col, index, name, rfl, h⟩
-  | writeCellPos cell pos => exact Or.inl (writeCellPos_refused h)
-  | writeCellName cell name ri => exact Or.inl (writeCellName_refused h)
-  | setUnits us => exact Or.inl (setUnits_refused h)
+  | appendRows rows => exact appendRows_refused h
+  | appendColumn col name dt => exact appendColumn_refused h
+  | writeRows rows idx => exact writeRows_refused h
+  | writeRowFlat row idx => exact writeRowFlat_refused h
+  | writeColumn col index name => exact writeColumn_refused h
+  | writeCellPos cell pos => exact writeCellPos_refused h
+  | writeCellName cell name ri => exact writeCellName_refused h
+  | setUnits us => exact setUnits_refused h
 
 /-- well-typed cells are stored unchanged (so "converted" in `ReadBack` is the identity for them) -/
 theorem C16_welltyped_stored (t : ColType) (v : Val) (h : wellTyped t v = true) : conv t v = .ok v := conv_id h
@@ -189,30 +187,275 @@ theorem C16_index_addresses_itself (f : Frame) (wf : WF f) (k : Nat) (hk : k < f
   have hn : normIdx f.cols.length (k : Int) = some k := normIdx_self hk
   have hg : f.cols[k]? = some f.cols[k] := List.getElem?_eq_getElem hk
   simp only [colTarget, resolveColName, hn, hg]
-  -- distinct names: the first column called like column k is column k
-  have key : ∀ (cols : List (String × ColType)) (k : Nat) (hk : k < cols.length),
-      hasDup (cols.map (·.1)) = false → findCol cols (cols[k]).1 = some k := by
-    intro cols
-    induction cols with
-    | nil => intro k hk; simp at hk
-    | cons c cs ih =>
-      intro k hk hd
-      simp only [List.map_cons, hasDup, Bool.or_eq_false_iff] at hd
-      cases k with
-      | zero => simp [findCol, List.findIdx?_cons]
-      | succ k =>
-        have hk' : k < cs.length := by simpa using hk
-        have hne : (c.1 == (cs[k]).1) = false := by
-          have : (cs[k]).1 ∈ cs.map (·.1) := List.mem_map.2 ⟨cs[k], List.getElem_mem hk', rfl⟩
-          have hc := hd.1
-          simp only [List.contains_eq_mem, decide_eq_false_iff_not] at hc
-          simp only [beq_eq_false_iff_ne, ne_eq]
-          intro e
-          exact hc (e ▸ this)
-        have := ih k hk' hd.2
-        simp only [findCol] at this ⊢
-        simp [List.findIdx?_cons, hne, this]
-  exact key f.cols k hk wf.nodup
+  exact findCol_self f.cols k hk wf.nodup
+
+-- ---------------------------------------------------------------------------------------
+-- every read API is a view of the one stored table
+
+/-- **`read_cell` is the table**: after any history, `read_cell(position=[row, col])` and
+    `read_cell(col_name=, row_idx=)` return exactly the stored cell at the (normalised) row and column — first, last
+    and negative addresses included — and fail exactly when the address names no cell -/
+theorem C16_read_cell_is_table (f0 : Frame) (hist : List Op) (hc : Created f0) (ri ci : Int) (name : String)
+    (v : Val) :
+    (readCellPos (run f0 hist) [ri, ci] = .ok v ↔
+      ∃ r c, normIdx (run f0 hist).rows.length ri = some r ∧ normIdx (run f0 hist).cols.length ci = some c ∧
+        (run f0 hist).cell r c = some v) ∧
+    (readCellName (run f0 hist) name ri = .ok v ↔
+      ∃ r c, normIdx (run f0 hist).rows.length ri = some r ∧ findCol (run f0 hist).cols name = some c ∧
+        (run f0 hist).cell r c = some v) :=
+  ⟨readCellPos_iff (wf_run (created_wf hc) hist), readCellName_iff⟩
+
+/-- **`read_rows` is the table**: `read_rows(i)` returns stored row `i` (normalised); `read_rows([i, j, …])`
+    returns, in the order of the list, exactly the rows `read_rows(i)`, `read_rows(j)`, … return -/
+theorem C16_read_rows_is_table (f : Frame) :
+    (∀ i row, readRow f i = .ok row ↔ ∃ k, normIdx f.rows.length i = some k ∧ f.rows[k]? = some row) ∧
+    (∀ idx rs, readRows f idx = .ok rs → rs.length = idx.length ∧
+      ∀ j (hj : j < idx.length), ∃ row, rs[j]? = some row ∧ readRow f idx[j] = .ok row) :=
+  ⟨fun _ _ => readRow_iff, fun _ _ h => readRows_spec h⟩
+
+/-- **`read_columns` is the table**: by index or by name, with any slice `lo:hi`: result row `r`, position `j` is
+    the stored cell of table row `start + r` in the column the j-th index / name addresses (requested order kept) -/
+theorem C16_read_columns_is_table (f : Frame) (lo hi : Option Int) (out : List Row) :
+    (∀ idx, readColumns f (colsByIndex f.cols.length idx) lo hi = .ok out →
+      out.length = (sliceList f.rows lo hi).length ∧
+      ∀ r (_ : r < out.length) j (hj : j < idx.length), ∃ c, normIdx f.cols.length idx[j] = some c ∧
+        (out[r]?).bind (·[j]?) = f.cell (sliceStart f.rows.length lo + r) c) ∧
+    (∀ ns unk, readColumns f (colsByName f.cols unk ns) lo hi = .ok out →
+      out.length = (sliceList f.rows lo hi).length ∧
+      ∀ r (_ : r < out.length) j (hj : j < ns.length), ∃ c, findCol f.cols ns[j] = some c ∧
+        (out[r]?).bind (·[j]?) = f.cell (sliceStart f.rows.length lo + r) c) := by
+  constructor
+  · intro idx h
+    cases hs : colsByIndex f.cols.length idx with
+    | error e => rw [hs] at h; simp [readColumns] at h
+    | ok ks =>
+      rw [hs] at h
+      obtain ⟨h1, h2⟩ := readColumns_spec h
+      obtain ⟨c1, c2⟩ := colsByIndex_spec hs
+      refine ⟨h1, ?_⟩
+      intro r hr j hj
+      obtain ⟨k, k1, k2⟩ := h2 r hr j (by rw [c1]; exact hj)
+      obtain ⟨k', e1, e2⟩ := c2 j hj
+      rw [k1] at e1
+      injection e1 with e1; subst e1
+      exact ⟨k, e2, k2⟩
+  · intro ns unk h
+    cases hs : colsByName f.cols unk ns with
+    | error e => rw [hs] at h; simp [readColumns] at h
+    | ok ks =>
+      rw [hs] at h
+      obtain ⟨h1, h2⟩ := readColumns_spec h
+      obtain ⟨c1, c2⟩ := colsByName_spec hs
+      refine ⟨h1, ?_⟩
+      intro r hr j hj
+      obtain ⟨k, k1, k2⟩ := h2 r hr j (by rw [c1]; exact hj)
+      obtain ⟨k', e1, e2⟩ := c2 j hj
+      rw [k1] at e1
+      injection e1 with e1; subst e1
+      exact ⟨k, e2, k2⟩
+
+/-- **a written cell is read back along every path**: after any history, an accepted `write_cell(position=)` is
+    returned by `read_cell(position=)`, by `read_cell(col_name=<that column's name>, row_idx=)` and sits at its
+    column in what `read_rows(row)` returns -/
+theorem C16_cell_write_read_everywhere (f0 : Frame) (hist : List Op) (hc : Created f0) (cell : Val)
+    (pos : List Int) (f' : Frame) (h : step (run f0 hist) (.writeCellPos cell pos) = (f', none)) :
+    ∃ ri ci c ct w, pos = [ri, ci] ∧ normIdx (run f0 hist).cols.length ci = some c ∧
+      (run f0 hist).cols[c]? = some ct ∧ conv ct.2 cell = .ok w ∧
+      readCellPos f' [ri, ci] = .ok w ∧ readCellName f' ct.1 ri = .ok w ∧
+      ∃ row, readRow f' ri = .ok row ∧ row[c]? = some w := by
+  have wf := wf_run (created_wf hc) hist
+  have wf' : WF f' := by
+    have := wf_step wf (.writeCellPos cell pos)
+    rw [h] at this; exact this
+  have hlen : f'.rows.length = (run f0 hist).rows.length := by
+    have := writeCellPos_rows_length (run f0 hist) cell pos
+    simp only [step] at h
+    rw [h] at this; exact this
+  obtain ⟨ri, ci, r, c, ct, w, hp, hr, hcn, hct, hw, hcell, hcols⟩ := C16_read_what_written f0 hist _ f' hc h
+  generalize run f0 hist = f at *
+  have hclt : c < f.cols.length := normIdx_lt hcn
+  have hname : findCol f'.cols ct.1 = some c := by
+    rw [hcols]
+    have := findCol_self f.cols c hclt wf.nodup
+    have hg : f.cols[c] = ct := by
+      have := List.getElem?_eq_getElem hclt
+      rw [this] at hct; injection hct
+    rw [hg] at this; exact this
+  refine ⟨ri, ci, c, ct, w, hp, hcn, hct, hw, ?_, ?_, ?_⟩
+  · exact (readCellPos_iff wf').2 ⟨r, c, by rw [hlen]; exact hr, by rw [hcols]; exact hcn, hcell⟩
+  · exact readCellName_iff.2 ⟨r, c, by rw [hlen]; exact hr, hname, hcell⟩
+  · simp only [Frame.cell] at hcell
+    cases hrow : f'.rows[r]? with
+    | none => simp [hrow] at hcell
+    | some row =>
+      simp only [hrow, Option.bind_some] at hcell
+      exact ⟨row, readRow_iff.2 ⟨r, by rw [hlen]; exact hr, hrow⟩, hcell⟩
+
+-- ---------------------------------------------------------------------------------------
+-- every refusal class is refused (and leaves the table unchanged)
+
+/-- **wrong length is refused**: a column (append / overwrite) whose length is not the row count, a units list
+    whose length is not the column count, a row list whose length is not that of the index list, a row with
+    another number of cells than there are columns — each is refused and the frame is returned unchanged -/
+theorem C16_refuses_wrong_length (f : Frame) :
+    (∀ col name dt, col.length ≠ f.rows.length → step f (.appendColumn col name dt) = (f, some .valueError)) ∧
+    (∀ col index name, col.length ≠ f.rows.length → step f (.writeColumn col index name) = (f, some .valueError)) ∧
+    (∀ us, us.length ≠ f.cols.length → step f (.setUnits us) = (f, some .valueError)) ∧
+    (∀ rows idx, rows.length ≠ idx.length → step f (.writeRows rows idx) = (f, some .indexError)) ∧
+    (∀ rows, (∃ r ∈ rows, r.length ≠ f.cols.length) → ∃ e, step f (.appendRows rows) = (f, some e)) ∧
+    (∀ rows idx, (∃ r ∈ rows, r.length ≠ f.cols.length) → ∃ e, step f (.writeRows rows idx) = (f, some e)) :=
+  ⟨fun _ _ _ h => refuse_appendColumn_length h, fun _ _ _ h => refuse_writeColumn_length h,
+   fun _ h => refuse_setUnits_length h, fun _ _ h => refuse_writeRows_count h,
+   fun _ h => refuse_appendRows_rowLength h, fun _ _ h => refuse_writeRows_rowLength h⟩
+
+/-- **an unknown column is refused**: a name no column has (`write_column` on a non-empty table, `write_cell`,
+    `read_cell`), a column index outside `-m ≤ i < m`, neither index nor name.  The code's one quirk is stated
+    too: `write_column` on a table without rows never looks at the name (nothing is written) -/
+theorem C16_refuses_unknown_column (f : Frame) :
+    (∀ col index nm, col.length = f.rows.length → f.rows ≠ [] → findCol f.cols nm = none →
+      step f (.writeColumn col index (some nm)) = (f, some .valueError)) ∧
+    (∀ col i, col.length = f.rows.length → normIdx f.cols.length i = none →
+      step f (.writeColumn col (some i) none) = (f, some .indexError)) ∧
+    (∀ col, col.length = f.rows.length → step f (.writeColumn col none none) = (f, some .valueError)) ∧
+    (∀ cell nm ri, findCol f.cols nm = none → ∃ e, step f (.writeCellName cell nm ri) = (f, some e)) ∧
+    (∀ cell ri ci, normIdx f.cols.length ci = none → step f (.writeCellPos cell [ri, ci]) = (f, some .indexError)) ∧
+    (∀ nm ri, findCol f.cols nm = none → ∃ e, readCellName f nm ri = .error e) ∧
+    (∀ index nm, f.rows = [] → step f (.writeColumn [] index (some nm)) = (f, none)) := by
+  refine ⟨fun _ index _ hl hne h => refuse_writeColumn_unknown (index := index) hl hne h, fun _ _ hl h => refuse_writeColumn_index hl h,
+    fun _ hl => refuse_writeColumn_noaddr hl, fun _ _ _ h => refuse_writeCellName_unknown h,
+    fun _ _ _ h => refuse_writeCellPos_col h, fun _ _ h => refuse_readCellName_unknown h, ?_⟩
+  intro index nm h
+  simp [step, writeColumn, h, resolveColName]
+
+/-- **an out-of-range row is refused**: any entry of `write_rows`' index list, the row of `write_cell` (both
+    forms) and of `read_rows` outside `-n ≤ i < n` -/
+theorem C16_refuses_out_of_range_row (f : Frame) :
+    (∀ rows idx, (∃ i ∈ idx, normIdx f.rows.length i = none) → ∃ e, step f (.writeRows rows idx) = (f, some e)) ∧
+    (∀ cell ri ci, normIdx f.rows.length ri = none → step f (.writeCellPos cell [ri, ci]) = (f, some .indexError)) ∧
+    (∀ cell nm ri, normIdx f.rows.length ri = none → step f (.writeCellName cell nm ri) = (f, some .indexError)) ∧
+    (∀ ri, normIdx f.rows.length ri = none → readRow f ri = .error .indexError) :=
+  ⟨fun _ _ h => refuse_writeRows_oob h, fun _ _ _ h => refuse_writeCellPos_row h,
+   fun _ _ _ h => refuse_writeCellName_row h, fun _ h => refuse_readRow h⟩
+
+/-- **a duplicate column name is refused** by `append_column` (an empty name is named `f<k>` by NumPy and is a
+    different case), and by creation from a name list -/
+theorem C16_refuses_duplicate_column_name (f : Frame) :
+    (∀ col name dt, name ∈ f.names → name ≠ "" → ∃ e, step f (.appendColumn col name dt) = (f, some e)) ∧
+    (∀ names types data f', createNamesTypes names types data = .ok f' → hasDup names = false) :=
+  ⟨fun _ _ _ hm hne => refuse_appendColumn_dup hm hne, fun _ _ _ _ h => (createNamesTypes_spec h).2.1⟩
+
+/-- **negative, repeated and unordered row indices of `write_rows`**: every entry is normalised (`-n ≤ i < 0`
+    addresses row `n + i`: `ReadBack` is stated through `readRow`, which normalises the same way); a list that
+    is not strictly increasing after normalisation — unordered, or one row named twice, also as `i` and `i - n` —
+    is refused and nothing is written -/
+theorem C16_refuses_unordered_rows (f : Frame) (rows : List (List Val)) (idx : List Int) (ks : List Nat)
+    (hn : normList f.rows.length idx = .ok ks) (hi : increasing ks = false) :
+    ∃ e, step f (.writeRows rows idx) = (f, some e) := refuse_writeRows_unordered hn hi
+
+/-- **a cell the column's type refuses is refused**, by `write_cell` (both forms) and by `write_column`, which
+    converts every cell before the first row is written (fix 2f1693f) -/
+theorem C16_refuses_unfit_cell (f : Frame) :
+    (∀ cell ri ci r c ct e, normIdx f.rows.length ri = some r → normIdx f.cols.length ci = some c →
+      f.cols[c]? = some ct → conv ct.2 cell = .error e → step f (.writeCellPos cell [ri, ci]) = (f, some e)) ∧
+    (∀ cell nm ri r c ct e, normIdx f.rows.length ri = some r → findCol f.cols nm = some c →
+      f.cols[c]? = some ct → conv ct.2 cell = .error e → step f (.writeCellName cell nm ri) = (f, some e)) ∧
+    (∀ col index name c ct, col.length = f.rows.length → colTarget f index name = some c → f.cols[c]? = some ct →
+      (∃ v ∈ col, ∃ e, conv ct.2 v = .error e) → ∃ e, step f (.writeColumn col index name) = (f, some e)) :=
+  ⟨fun _ _ _ _ _ _ _ hr hc hct he => refuse_writeCellPos_cell hr hc hct he,
+   fun _ _ _ _ _ _ _ hr hc hct he => refuse_writeCellName_cell hr hc hct he,
+   fun _ _ _ _ _ hl hc hct hb => refuse_writeColumn_cell hl hc hct hb⟩
+
+-- ---------------------------------------------------------------------------------------
+-- creation variants, units
+
+/-- **the schema each creation variant derives**: `col_dict` and structured array: the given columns (NumPy's
+    dtype of them: unnamed fields become `f<k>`, proper names are kept as they are); `col_names + col_dtypes`:
+    distinct names zipped with at least as many types; `col_names + data`: the Python types of the first row's
+    cells.  Every variant: at least one column, no units, the column types in the given order -/
+theorem C16_creation_schema :
+    (∀ cols data f, createDict cols data = .ok f →
+      mkDtype cols = .ok f.cols ∧ f.cols ≠ [] ∧ f.units = none ∧ f.types = cols.map (·.2) ∧
+      ((∀ c ∈ cols, c.1 ≠ "") → f.cols = cols)) ∧
+    (∀ names types data f, createNamesTypes names types data = .ok f →
+      names.length ≤ types.length ∧ hasDup names = false ∧ f.cols ≠ [] ∧ f.units = none ∧
+      f.types = (names.zip types).map (·.2) ∧ ((∀ n ∈ names, n ≠ "") → f.cols = names.zip types)) ∧
+    (∀ names data f, createNamesData names data = .ok f →
+      ∃ r rs, data = some (r :: rs) ∧ names.length ≤ r.length ∧
+        f.types = (names.zip (r.map typeOfVal)).map (·.2)) ∧
+    (∀ cols data f, createStruct cols data = .ok f →
+      data ≠ [] ∧ mkDtype cols = .ok f.cols ∧ f.types = cols.map (·.2) ∧ f.units = none) := by
+  refine ⟨?_, ?_, ?_, ?_⟩
+  · intro cols data f h
+    obtain ⟨h1, h2, h3, h4, _⟩ := createWith_spec h
+    exact ⟨h1, h2, h3, h4, createWith_cols h⟩
+  · intro names types data f h
+    obtain ⟨h1, h2, h3⟩ := createNamesTypes_spec h
+    obtain ⟨_, g2, g3, g4, _⟩ := createWith_spec h3
+    refine ⟨h1, h2, g2, g3, g4, ?_⟩
+    intro hn
+    apply createWith_cols h3
+    intro c hc
+    exact hn c.1 (List.of_mem_zip hc).1
+  · intro names data f h
+    obtain ⟨r, rs, hd, h2⟩ := createNamesData_spec h
+    obtain ⟨h1, _, h3⟩ := createNamesTypes_spec h2
+    obtain ⟨_, _, _, g4, _⟩ := createWith_spec h3
+    exact ⟨r, rs, hd, by simpa using h1, g4⟩
+  · intro cols data f h
+    obtain ⟨h1, h2⟩ := createStruct_spec h
+    obtain ⟨g1, _, g3, g4, _⟩ := createWith_spec h2
+    exact ⟨h1, g1, g4, g3⟩
+
+/-- **what was written at creation is read back**: in every variant the table has one row per data row, and
+    `read_rows(k)` returns the k-th data row converted to the column types (the identity on well-typed rows) -/
+theorem C16_created_reads_back :
+    (∀ cols rows f, createDict cols (some rows) = .ok f →
+      f.rows.length = rows.length ∧
+      ∀ k (hk : k < rows.length), ∃ w, convRow f.types rows[k] = .ok w ∧ readRow f (k : Int) = .ok w) ∧
+    (∀ names types rows f, createNamesTypes names types (some rows) = .ok f →
+      f.rows.length = rows.length ∧
+      ∀ k (hk : k < rows.length), ∃ w, convRow f.types rows[k] = .ok w ∧ readRow f (k : Int) = .ok w) ∧
+    (∀ names rows f, createNamesData names (some rows) = .ok f →
+      f.rows.length = rows.length ∧
+      ∀ k (hk : k < rows.length), ∃ w, convRow f.types rows[k] = .ok w ∧ readRow f (k : Int) = .ok w) ∧
+    (∀ cols rows f, createStruct cols rows = .ok f →
+      f.rows.length = rows.length ∧
+      ∀ k (hk : k < rows.length), ∃ w, convRow f.types rows[k] = .ok w ∧ readRow f (k : Int) = .ok w) ∧
+    (∀ cols f, createDict cols none = .ok f → f.rows = []) := by
+  refine ⟨fun _ _ _ h => created_rows_read h, fun _ _ _ _ h => created_rows_read (createNamesTypes_spec h).2.2,
+    ?_, fun _ _ _ h => created_rows_read (createStruct_spec h).2, fun _ _ h => (createWith_spec h).2.2.2.2.1 rfl⟩
+  intro names rows f h
+  obtain ⟨r, rs, hd, h2⟩ := createNamesData_spec h
+  injection hd with hd
+  subst hd
+  exact created_rows_read (createNamesTypes_spec h2).2.2
+
+/-- **`columns` and `units` agree**: after any history the unit `columns` lists for each column is the one `units`
+    reports, None for every column when no units are set -/
+theorem C16_columns_units (f0 : Frame) (hist : List Op) (hc : Created f0) :
+    (columns (run f0 hist)).map (fun x => x.2.2) =
+      match unitsOf (run f0 hist) with
+      | some us => us
+      | none => List.replicate (run f0 hist).cols.length none :=
+  columns_units (wf_run (created_wf hc) hist)
+
+-- ---------------------------------------------------------------------------------------
+-- the shape of the source (regenerated from nixio/data_frame.py and block.py on every run)
+
+/-- **DataFrame objects carry no state**: no method other than `__init__` assigns an object field and no method
+    reads one — the premise of the model's one table per frame whatever object is used.  (A per-object cache of
+    the schema, the row count or the dataset breaks this theorem; the oracle then reads through several live
+    objects of one frame to find the stale answer.) -/
+theorem C16_handles_stateless :
+    Nix.Generated.FrameShape.slotWrites = [] ∧ Nix.Generated.FrameShape.slotReads = [] := ⟨rfl, rfl⟩
+
+/-- the `if …: raise …` guards of every modelled method are the ones the model was written against, in order -/
+theorem C16_guards_as_modelled : Nix.Generated.FrameShape.guards = Nix.Frame.Shape.guards := rfl
+
+/-- helper calls and dataset accesses of every modelled method are the ones the model was written against:
+    conversions before writes, `H5Group.create_dataset` + `write_data` for the rebuilt dataset, the dataset
+    looked up in the file on every schema read -/
+theorem C16_calls_as_modelled : Nix.Generated.FrameShape.calls = Nix.Frame.Shape.calls := rfl
 
 -- ---------------------------------------------------------------------------------------
 -- non-vacuity: a concrete created frame, accepted and refused operations
@@ -238,8 +481,25 @@ example : (step exFrame (.writeColumn [.int 1, .int 2] none (some "nope"))).2 = 
 example : (step exFrame (.appendRows [[.int 1]])).2 = some .valueError := by decide
 example : (step exFrame (.appendColumn [.int 1, .int 2] "a" (some .i64))).2 = some .valueError := by decide
 example : (step exFrame (.writeCellPos (.int 300) [0, 0])).2 = some .valueError := by decide
-/-- the exception in `C16_refused_unchanged` is real: a refused cell in row 1 leaves row 0 written -/
-example : (step exFrame (.writeColumn [.int 5, .str "x"] (some 0) none)).2 = some .valueError ∧
-    (step exFrame (.writeColumn [.int 5, .str "x"] (some 0) none)).1.cell 0 0 = some (.int 5) := by decide
+/-- `write_column` is all-or-nothing: a refused cell in row 1 leaves row 0 as it was (fix 2f1693f) -/
+example : step exFrame (.writeColumn [.int 5, .str "x"] (some 0) none) = (exFrame, some .valueError) := by decide
+
+/-- negative and repeated addresses: `[-1, 1]` names row 1 twice on a two-row table and is refused; `[0, -1]` is
+    rows 0 and 1 -/
+example : (step exFrame (.writeRows [[.int 1, .str "q"], [.int 2, .str "r"]] [-1, 1])).2 = some .typeError ∧
+    (step exFrame (.writeRows [[.int 1, .str "q"], [.int 2, .str "r"]] [0, -1])).1.rows
+      = [[.int 1, .str "q"], [.int 2, .str "r"]] := by decide
+example : normList exFrame.rows.length [-1, 1] = .ok [1, 1] ∧ increasing [1, 1] = false := ⟨rfl, rfl⟩
+/-- the read paths agree on a concrete frame -/
+example : readCellPos exFrame [-1, 0] = .ok (.int 2) ∧ readCellName exFrame "a" 1 = .ok (.int 2) ∧
+    readColumns exFrame (colsByIndex 2 [1, 0]) (some 1) none = .ok [[.str "y", .int 2]] ∧
+    readRows exFrame [0, -1] = .ok exFrame.rows := ⟨rfl, rfl, rfl, rfl⟩
+/-- duplicate name / unknown column / wrong cell refusals have instances -/
+example : "a" ∈ exFrame.names ∧ findCol exFrame.cols "nope" = none ∧ conv .i8 (.int 300) = .error .valueError :=
+  ⟨by decide, by decide, rfl⟩
+/-- creation variants on concrete input -/
+example : (createNamesData ["n", "t"] (some [[.int 1, .str "x"]])).map (·.cols) = .ok [("n", .i64), ("t", .text)] ∧
+    (createNamesTypes ["a", "a"] [.i8, .i8] none).toOption = none ∧
+    (createStruct [("a", .i8)] []).toOption = none := ⟨rfl, rfl, rfl⟩
 
 end Nix.C16
